@@ -1,17 +1,12 @@
-#include "res0.spec.h"
+#include "floor0.spec.h"
 #include VERIF_SRC
-/* the setup as _vorbis_unpack_books has built it when residues are read: `books`
-   static codebooks (all book_param slots below `books` valid) */
-void h_res0_unpack(void) {
+void h_floor0_unpack(void) {
   vorbis_info *vi = malloc(sizeof *vi); codec_setup_info *ci = malloc(sizeof *ci); oggpack_buffer *opb;
   vi->codec_setup = ci;
   __CPROVER_assume(ci->books >= 1 && ci->books <= VERIF_MAXBOOKS);
   for (int i = 0; i < VERIF_MAXBOOKS; i++) ci->book_param[i] = (i < ci->books) ? malloc(sizeof(static_codebook)) : NULL;
-  vorbis_info_residue *r = res0_unpack(vi, opb);
-  if (r) res0_free_info(r);
+  vorbis_info_floor *r = floor0_unpack(vi, opb);
+  if (r) floor0_free_info(r);
   for (int i = 0; i < VERIF_MAXBOOKS; i++) free(ci->book_param[i]);
   free(ci); free(vi);
 }
-#ifdef H_ICOUNT
-void h_res0_icount(void) { unsigned v; int r = icount(v); }
-#endif
